@@ -428,6 +428,9 @@ class Inliner:
         class R(ast.NodeTransformer):
             def visit_Return(self, node):
                 new = sink(node.value if node.value is not None else ast.Constant(value=None))
+                if isinstance(new, ast.Assign) and len(new.targets) == 1 and isinstance(new.targets[0], ast.Name) and isinstance(new.value, ast.Name) \
+                        and new.targets[0].id == new.value.id:
+                    new = None  # x = x
                 return ast.copy_location(new, node) if new is not None else ast.copy_location(ast.Pass(), node)
 
             def visit_FunctionDef(self, node):
